@@ -176,6 +176,10 @@ def register(R: Registry):
         w = S.int("window")
         S.assume(w.z >= 1)
         kernel = S.arr("real", n=w, name="kernel")
+        # object invariant established by the constructor (`self.kernel = np.ones(n_nodes)`): the kernel is all ones.  With it the divisor
+        # `c = convolve(ones(n), kernel, "same")` of `s / c` is >= 1 everywhere (model cross-checked in tools/xcheck_ext_C16.py), which the
+        # `safety/div-nonzero` obligation of the elementwise division needs; with an arbitrary kernel `c` can be 0 and s / c is 0/0
+        kernel.arr = z3.K(z3.IntSort(), z3.RealVal(1))
         return dict(self=S.obj(BranchConvSmoother, n_nodes=w, kernel=kernel), x=br)
 
     def _out(v):
@@ -242,7 +246,8 @@ def register(R: Registry):
                    ("connectivity-is-the-chain", sm_chain),
                    ("end-points-unchanged", sm_ends)],
           notes="branch of symbolic length on a tree of symbolic size, window symbolic; input tree, index array and branch object are "
-                "frozen (any write to them is a failed frame obligation); scipy.signal.convolve only through its output length")
+                "frozen (any write to them is a failed frame obligation); kernel = ones(window) as the constructor leaves it; "
+                "scipy.signal.convolve only through its output length and `convolve(ones, ones) >= 1`")
 
     # ------------------------------------------------ _BranchResampler.__call__
     # the user-facing call  Resampler(...)(branch): reads the branch through its window, resamples, builds a NEW branch
